@@ -1564,9 +1564,20 @@ impl HasChildren for XmlDocument {
                 }
             }
             XmlItem::Element(_) => {
-                if self
-                    .document_element()
-                    .is_ok_and(|v| v.borrow().id() != value.id())
+                // The document element stands after the declaration.
+                let declaration = self
+                    .children
+                    .borrow()
+                    .iter()
+                    .position(|v| v.as_document_type().is_some());
+                let after_declaration = match (declaration, id) {
+                    (Some(declaration), Some(id)) => Some(declaration) < self.child_index(id),
+                    _ => true,
+                };
+                if !after_declaration
+                    || self
+                        .document_element()
+                        .is_ok_and(|v| v.borrow().id() != value.id())
                 {
                     Err(error::Error::InvalidType)
                 } else {
